@@ -243,8 +243,8 @@ def run_query(obj, q):
     k = q[0]
     if k == 'iter':
         return (f'(QIter {"true" if q[1] else "false"})', 'trace', obs_iter(obj, q[1]))
-    if k == 'copyiter':          # the model's copy is the identity on descriptors
-        r = obs_call(lambda: obj.copy())
+    if k == 'copyiter':          # the model's copy is the identity on descriptors (plain and frozen copies alike: no per-epoch stage here)
+        r = obs_call(lambda: obj.copy(freeze=True) if len(q) > 2 and q[2] == 'freeze' else obj.copy())
         if r[0] == 'err':
             return (f'(QIter {"true" if q[1] else "false"})', 'trace', ([], r[1]))
         return (f'(QIter {"true" if q[1] else "false"})', 'trace', obs_iter(r[1], q[1]))
@@ -658,6 +658,7 @@ def standard_script(obj, node, r, want):
         qs.append(itk)
     if 'iter' in want and not is_cycle:
         qs.append(('copyiter', False))
+        qs.append(('copyiter', r.random() < 0.3, 'freeze'))
         qs.append(it)
     return qs
 
